@@ -467,6 +467,11 @@ class TextXVisitor(RRELVisitor):
             for cls in model_parser.metamodel:
                 cls._tx_peg_rule = _resolve_rule(cls._tx_peg_rule)
 
+        # The comment rule is handed to the parser before references are
+        # resolved. Its body may have been a rule reference.
+        if "Comment" in model_parser.metamodel:
+            model_parser.comments_model = model_parser.metamodel["Comment"]._tx_peg_rule
+
     def _determine_rule_types(self, metamodel):
         """Determine textX rule/metaclass types"""
 
